@@ -13,7 +13,10 @@
              (part 3); since seeded change C07-6 also sessions whose queues hold the real
              Synchronization tasks of kubernetes bindings (made by the real EnableKubernetesBindings
              task on a fake cluster; v0 and v1 hooks, with and without group and
-             executeHookOnSynchronization), followed by kubernetes Event and schedule tasks.
+             executeHookOnSynchronization), followed by kubernetes Event and schedule tasks; since seeded
+             change C07-7 the tasks of every class carry the failure policy of their binding (`allowFailure`,
+             [t_af]; in class sync the real Synchronization tasks of bindings that declare it), mixed inside
+             one backlog.
    Evaluated by vm_compute in the generated cases files. *)
 From Verif Require Import Common C07_Model C07_Spec.
 
@@ -30,6 +33,9 @@ Definition C := mkCtx.
 (* class op: the full task (kubernetes binding type, HookMetadata.Group, ExecuteOnSynchronization)
    and a Synchronization context *)
 Definition TG := mkTaskK.
+(* a task of a binding with `allowFailure: true` (classes queue and set; [TG] has the policy as its last
+   argument): since seeded change C07-7 the layouts and sessions of every class mix both policies *)
+Definition AF : task -> task := with_af true.
 Definition CS (tag group : N) : ctx := mkCtxK tag group true.
 Definition R := mkRun.
 
